@@ -240,7 +240,9 @@ def start (defs : K → St → St × Goal St K) (top : Goal St K → St → Strm
     -- conde { g, anyo { g } }: both clauses are one-goal conjunctions (`InferredConj::new(g, succeed)`)
     let first : Strm St K :=
       if g.isSucceed then .unit a else if g.isFail then .empty else .lazy (.pause a g)
-    mplus first (.delay (mplus (.lazy (.pause a (.anyo g))) (.delay .empty)))
+    -- the recursive `anyo { g }` re-wraps its body: `Anyo::new(Conj::from_conjunctions([[g]]))`
+    let g' := mkConj (mkConj g .succeed) .succeed
+    mplus first (.delay (mplus (.lazy (.pause a (.anyo g'))) (.delay .empty)))
   | .call k, a => top (defs k a).2 (defs k a).1
 
 /-- The solver of nesting level `n`: relation bodies are solved at once (as `Closure::solve` does) up
